@@ -741,6 +741,15 @@ fn upstream_silent(sim: &mut Sim, rep: &mut Report, c01: usize, c12: usize, amt:
 		rep.count("c08_d6_scenarios_claim_did_not_go_through");
 		return Ok(());
 	}
+	// transactions confirm within the library's stated bound, not at once: the miner holds every transaction back for
+	// up to 16 blocks (the bound is 18 for each of the two steps, commitment and claim; the claim buffer is twice that)
+	let delay = match claim_late {
+		0 => 16,
+		1 => 8,
+		_ => 0,
+	};
+	sim.w.miner_delay_max = delay;
+	rep.count(&format!("c08_d6_scenarios_with_miner_delay_up_to_{}", delay));
 	let end = cltv_in + 12;
 	while sim.w.chain.height() < end {
 		sim.w.mine(1);
@@ -750,9 +759,11 @@ fn upstream_silent(sim: &mut Sim, rep: &mut Report, c01: usize, c12: usize, amt:
 		turn(sim, true);
 		absorb(sim, rep, &mut seen, c01, c12, hash);
 		if !sim.raised.is_empty() {
+			sim.w.miner_delay_max = 0;
 			return Ok(());
 		}
 	}
+	sim.w.miner_delay_max = 0;
 	rep.count("c08_d6_upstream_silent_scenarios_judged");
 	let detail_base = format!("inbound HTLC of {} msat expiring at {}, preimage learnt at height {}", amt_in, cltv_in, learned_at);
 	// what became of the inbound HTLC's output?
